@@ -65,6 +65,26 @@ def _wait_calls(body):
                                                      "std::sync::Condvar::wait_while", "std::sync::Condvar::wait_timeout_while"))
 
 
+def _is_capped_ack(b, sym, e):
+    """a local holding the capped acknowledgement: each of its definitions is the ack argument, sent_offset, or min of the two"""
+    if not (isinstance(e, tuple) and e and e[0] == "local"):
+        return False
+    defs = b.defs_of(e[1])
+    if not defs:
+        return False
+    for d in defs:
+        if d[0] != "assign":
+            v = sym.op({"copy": {"l": e[1], "p": []}}) if len(defs) == 1 else None
+            if v is None or not (is_call(v, "min") and any(y[0] == "arg" for y in walk(v))):
+                return False
+            continue
+        v = sym.rvalue(d[3])
+        ok = v[0] == "arg" or (v[0] == "field" and v[2] == "sent_offset") or (is_call(v, "min") and any(y[0] == "arg" for y in walk(v)))
+        if not ok:
+            return False
+    return True
+
+
 def run(facts, R):
     tc = facts.adt(TC)
     fields = [f["name"] for f in tc["variants"][0]["fields"]]
@@ -197,6 +217,24 @@ def run(facts, R):
             "request_resume can accept a resume without storing acked_offset on a path not known to have last <= acked or last > sent (e.g. the trailing edge "
             "last == sent): the waiting producer is woken but finds no credit and sleeps on until its deadline", rr.span,
             "store crossed, or edge last<=acked / last>sent", path=w)
+
+    # ... and the same for an acknowledgement: record_ack stores acked_offset := min(ack, sent) whenever the ack is for the current
+    # file and that value is above acked_offset; the only edges that may skip the store say `file_index != current` or
+    # `min(ack, sent) <= acked`
+    ra = facts.body(TC + "::record_ack")
+    asym = Sym(ra)
+    a_st = [(w["bb"], w["idx"]) for w in field_writes(facts, INNER, "acked_offset") if w["body"] is ra and w["kind"] == "store"]
+    a_skip = []
+    for x in sorted(ra.live_blocks()):
+        for (o, a, b2) in cmp_facts(facts_at(ra, asym, facts, x)):
+            other_file = o == "Ne" and ((a[0] == "arg" and _fld(b2, "current_file_index")) or (b2[0] == "arg" and _fld(a, "current_file_index")))
+            stale = o == "Le" and _fld(b2, "acked_offset") and (any(y[0] == "arg" for y in walk(a)) or _is_capped_ack(ra, asym, a))
+            if other_file or stale:
+                a_skip.append((x, 0))
+    w = must_cross(ra, [(0, 0)], return_points(ra), a_st + a_skip, after_start=False)
+    R.check(bool(a_st) and w is None, "notify-after-enabling-write", ra.path, "a fresh acknowledgement for the current file releases its credit",
+            "record_ack can return without storing acked_offset on a path not known to have file_index != current or ack <= acked: the credit stays taken "
+            "and the waiting producer sleeps on until its deadline", ra.span, "store crossed, or edge other-file / stale", path=w)
 
     # ---- (3) notify after enabling write ---------------------------------------------------------
     R.note("derived predicate fields: " + ", ".join(sorted(predicate_fields)))
